@@ -663,6 +663,51 @@ def probe(ctx, n):
     return bad
 
 
+
+# ------------------------------------------------------------------ AST pins of the hand-modelled code
+def ast_pins(relpath, names):
+    """hash of the normalised AST (docstrings removed) of the named top-level classes/functions
+    (or Class.method) of a pyrex source file"""
+    import ast
+    import hashlib
+    tree = ast.parse(open(os.path.join(common.REPO, relpath)).read())
+    out = {}
+
+    def strip(node):
+        for n in ast.walk(node):
+            body = getattr(n, "body", None)
+            if isinstance(body, list) and body and isinstance(body[0], ast.Expr) and \
+                    isinstance(getattr(body[0], "value", None), ast.Constant) and isinstance(body[0].value.value, str):
+                n.body = body[1:] or [ast.Pass()]
+        return node
+    for name in names:
+        parts = name.split(".")
+        cur = [n for n in tree.body if getattr(n, "name", None) == parts[0]]
+        for part in parts[1:]:
+            cur = [m for c in cur for m in c.body if getattr(m, "name", None) == part]
+        out[name] = hashlib.sha256(ast.dump(strip(cur[0])).encode()).hexdigest()[:16] if cur else "missing"
+    return out
+
+
+PINNED = [("pyrex/detector.py", ["Detector", "CombinedDetector"]), ("pyrex/internal_functions.py", ["flatten", "mirror_func"])]
+PINS = {   # values for the source the model was written against (pyrex tree with the two C19 fix: commits)
+    "pyrex/detector.py:Detector": "0808a374b0f9ac7e",
+    "pyrex/detector.py:CombinedDetector": "45bac96ef0da02ac",
+    "pyrex/internal_functions.py:flatten": "14063bb135dac95c",
+    "pyrex/internal_functions.py:mirror_func": "f391681338f38354",
+}
+
+
+def pins_changed():
+    now = {}
+    for rel, names in PINNED:
+        try:
+            now.update({rel + ":" + k: v for k, v in ast_pins(rel, names).items()})
+        except Exception as e:
+            now[rel] = "unreadable: %s" % e
+    return [k for k in now if PINS.get(k) != now[k]], now
+
+
 # ------------------------------------------------------------------ check
 def corpus_histories():
     d = os.path.join(common.ROOT, "corpus", "C19")
@@ -717,6 +762,12 @@ def run(ctx):
     ok = ctx.coq_build("C19")
     big = ctx.thorough
     n = ctx.n(220, 4000)
+    changed, now = pins_changed()
+    ctx.extra["ast_pins"] = {"changed": changed, "current": now}
+    if changed and not ctx.thorough:
+        # the hand-modelled source was edited since the model was validated: escalate
+        n = 1500
+        big = True
     histories, outs_all, tags = [], [], []
     for name, ops in corpus_histories():
         ops = fix_ops(ops)
@@ -751,8 +802,8 @@ def run(ctx):
                                    "outcome_kinds": coverage(outs_all),
                                    "op_kinds": {k: sum(1 for ops in histories for o in ops if o[0] == k)
                                                 for k in sorted({o[0] for ops in histories for o in ops})}}
-    if ctx.thorough or not ok or not corr_ok:
-        nb = probe(ctx, ctx.n(150, 1500))
+    if ctx.thorough or not ok or not corr_ok or changed:
+        nb = probe(ctx, ctx.n(400, 1500))
         ctx.extra["search"] = {"ran": True, "oracle": "leaves in construction order recorded by the harness while building", "failures": nb}
     else:
         nb = probe(ctx, 40)
